@@ -267,6 +267,17 @@ func applyEdit(w *wireReq, edit string) bool {
 			}
 			return c, d, true
 		})
+	case "reframe_as_multipart":
+		if mt != "application/x-www-form-urlencoded" {
+			return false
+		}
+		buf := &bytes.Buffer{}
+		mw := multipart.NewWriter(buf)
+		pw, _ := mw.CreatePart(textproto.MIMEHeader{"Content-Type": {"application/x-www-form-urlencoded"}})
+		pw.Write(w.body)
+		mw.Close()
+		w.body = buf.Bytes()
+		w.header.Set("Content-Type", "multipart/mixed; boundary="+mw.Boundary())
 	case "override_with_url_query":
 		u := *w.url
 		u.RawQuery = "a"
